@@ -9,11 +9,17 @@ def _r(x, nd=4):
     return round(float(x), nd)
 
 
+def _scale(rng):
+    return rng.choice([1.0, 1.0, 1.0, 1.0, 1e-3, 1e3])
+
+
 def stream_values(rng, n, kind=None, drift_rate=None, nd=4):
     """Univariate real stream with regime changes.  Returns (values, drift_positions)."""
     kind = kind or rng.choice(["gauss", "gauss", "gauss", "bern", "ramp", "heavy"])
     drift_rate = drift_rate if drift_rate is not None else rng.choice([0.005, 0.01, 0.02, 0.04])
     mu, sd = rng.choice([0.0, 0.0, 5.0, -2.0, 100.0]), rng.choice([0.5, 1.0, 2.0])
+    scale = _scale(rng)          # overall magnitude of the data (several detectors are not scale invariant)
+    nd = nd + (3 if scale < 1 else 0)
     out, drifts = [], []
     slope = 0.0
     for t in range(n):
@@ -31,9 +37,9 @@ def stream_values(rng, n, kind=None, drift_rate=None, nd=4):
             p = min(0.97, max(0.03, 0.5 + mu / 20.0))
             out.append(1.0 if rng.random() < p else 0.0)
         elif kind == "heavy":
-            out.append(_r(mu + sd * rng.gauss(0, 1) * (5.0 if rng.random() < 0.03 else 1.0), nd))
+            out.append(_r(scale * (mu + sd * rng.gauss(0, 1) * (5.0 if rng.random() < 0.03 else 1.0)), nd))
         else:
-            out.append(_r(rng.gauss(mu, sd), nd))
+            out.append(_r(scale * rng.gauss(mu, sd), nd))
     return out, drifts
 
 
@@ -62,6 +68,8 @@ def mv_stream(rng, n, d, drift_rate=None, nd=4):
     mu = [rng.choice([0.0, 1.0, -3.0]) for _ in range(d)]
     sd = [rng.choice([0.3, 1.0, 3.0]) for _ in range(d)]
     rho = rng.choice([0.0, 0.0, 0.6, -0.6])
+    scale = _scale(rng)
+    nd = nd + (3 if scale < 1 else 0)
     rows, drifts = [], []
     for t in range(n):
         if rng.random() < drift_rate:
@@ -81,7 +89,7 @@ def mv_stream(rng, n, d, drift_rate=None, nd=4):
         z = [rng.gauss(0, 1) for _ in range(d)]
         for j in range(1, d):
             z[j] = rho * z[0] + math.sqrt(max(0.0, 1 - rho * rho)) * z[j]
-        rows.append([_r(mu[j] + sd[j] * z[j], nd) for j in range(d)])
+        rows.append([_r(scale * (mu[j] + sd[j] * z[j]), nd) for j in range(d)])
     return rows, drifts
 
 
@@ -92,6 +100,8 @@ def batches(rng, nb, d, size_lo=8, size_hi=60, equal=None, drift_rate=None, nd=3
     n0 = rng.randint(size_lo, size_hi)
     mu = [rng.choice([0.0, 1.0, -3.0]) for _ in range(d)]
     sd = [rng.choice([0.5, 1.0, 2.0]) for _ in range(d)]
+    scale = 1.0 if integer else _scale(rng)
+    nd = nd + (3 if scale < 1 else 0)
     out, drifts = [], []
     for b in range(nb):
         if b > 0 and rng.random() < drift_rate:
@@ -108,7 +118,7 @@ def batches(rng, nb, d, size_lo=8, size_hi=60, equal=None, drift_rate=None, nd=3
             if rows and rng.random() < dup:
                 rows.append(list(rng.choice(rows)))
             else:
-                row = [rng.gauss(mu[j], sd[j]) for j in range(d)]
+                row = [scale * rng.gauss(mu[j], sd[j]) for j in range(d)]
                 rows.append([float(round(v)) if integer else _r(v, nd) for v in row])
         out.append(rows)
     return out, drifts
